@@ -18,6 +18,11 @@ def run(tier, seed):
     for scn in ("ranks", "rankconc"):
         for off in range(0, n, per):
             jobs.append(dict(exe=exe, scn=scn, seed0=seed * 1000000 + 1 + off, count=min(per, n - off), opts=(), env={"ABTV_BUDGET": "600000"}))
+    # free-running stress: 8 external threads create/join/free streams at full speed; plain (non-atomic) bookkeeping that is
+    # updated outside its lock cannot be interleaved by the serializing runtime, only by real threads
+    for k in range(4 if quick else 16):
+        jobs.append(dict(exe=exe, scn="rankstress", seed0=seed * 1000000 + 900001 + k, count=1, opts=("rounds=%d" % (30 if quick else 80), "pairs=150"),
+                         mode="free", env={}, timeout=600))
     if not quick:
         for scn in ("ranks", "rankconc"):
             jobs.append(dict(exe=exe, scn=scn, seed0=seed * 1000000 + 800001, count=300, opts=(), mode="free", env={"ABTV_PERTURB": "1"}, timeout=900))
